@@ -16,7 +16,10 @@ from ..common import ToolError
 from ..extract import base
 
 NEEDS = ["driver"]
-TOK = {"TXT": "word", "NL": "\n", "CRLF": "\r\n", "CR": "\r", "SL": "*", "NLSL": "\n*", "NLBC": "\n*/", "BCCR": "*\r/", "BC": "*/", "BO": "/*", "LC": "//", "TDQ": '"""', "DDQ": '""', "QDQ": '""""', "PDQ": '"""""', "TSQ": "'''", "BS": "\\", "HASH": "#", "BT": "`", "DQ": '"'}
+TOK = {"TXT": "word", "NL": "\n", "CRLF": "\r\n", "CR": "\r", "SL": "*", "NLSL": "\n*", "NLBC": "\n*/", "BCCR": "*\r/", "BC": "*/", "BO": "/*", "LC": "//", "TDQ": '"""', "DDQ": '""', "QDQ": '""""', "PDQ": '"""""', "TSQ": "'''", "BS": "\\", "HASH": "#", "BT": "`", "DQ": '"',
+       # text that SPELLS a line break without being one: character references, a backslash escape, a percent escape (a backend that
+       # decodes any of them on the way turns doc text into a new line)
+       "AMPNL": "&#10;", "AMPXA": "&#xA;", "BSN": "\\n", "PCTNL": "%0A", "UNL": "\\u{a}"}
 POSITIONS = ["type", "field", "variant", "vfield", "alias", "uvariant", "tagged"]
 MARK = re.compile(r"D\d+x")
 
